@@ -25,6 +25,7 @@ type Obligation struct {
 	Values  []string // terms to get-value on sat
 	ExpectSat bool   // cover queries: sat is the good answer
 	Err     string   // generation failure (counts as undischarged)
+	Fx      *FnExec  // the function execution this obligation belongs to (for replay)
 }
 
 type exitRec struct {
@@ -83,6 +84,7 @@ type FnExec struct {
 	formalEpoch *Epoch
 	formalKeys  []string
 	freezeHV    bool
+	resultTerms []Term
 }
 
 func (g *Gen) NewFnExec(fn *ssa.Function, c *Contract) *FnExec {
@@ -115,7 +117,7 @@ func (fx *FnExec) position() token.Position {
 func (fx *FnExec) Assert(st *State, name, kind, text string, phi Term) {
 	if phi.S != "true" {
 		o := &Obligation{Name: fx.key + "#" + name, Kind: kind, Fn: fx.key, Prefix: fx.sc.Pos(),
-			Goal: And(st.R, Not(phi)), Script: fx.sc, Pos: fx.position(), Text: text}
+			Goal: And(st.R, Not(phi)), Script: fx.sc, Pos: fx.position(), Text: text, Fx: fx}
 		o.Values = fx.paramValueNames()
 		fx.obls = append(fx.obls, o)
 	} else {
@@ -1426,6 +1428,7 @@ func (fx *FnExec) finish() {
 			acc = Ite(fx.exits[i].cond, fx.exits[i].results[r], acc)
 		}
 		results[r] = fx.sc.Define(fmt.Sprintf("result%d", r), acc)
+		fx.resultTerms = append(fx.resultTerms, results[r])
 	}
 	// vacuity guard: some normal exit is reachable under all assumptions made
 	fx.obls = append(fx.obls, &Obligation{Name: fx.key + "#cover.exit", Kind: "cover", Fn: fx.key, Script: fx.sc,
